@@ -329,7 +329,7 @@ fn main() {
         let mut undetected: Vec<Value> = vec![];
         let cfg = Cfg(2 | (1 << 2)); // width 100, tab 4, no sorting, no merging
         let mut tried = 0;
-        for (p, t) in corpus.iter().filter(|(_, t)| t.len() < 20_000).take(if thorough { 400 } else { 120 }) {
+        for (p, t) in corpus.iter().filter(|(p, t)| t.len() < 20_000 && !p.contains("/corpus/C11/")).take(if thorough { 400 } else { 120 }) {
             tried += 1;
             for kind in oracle::TAMPERS {
                 let f = move |s: &str| oracle::tamper(kind, s);
